@@ -44,6 +44,7 @@ type replacerCompiler struct {
 	fset     *token.FileSet
 	meta     *Meta
 	dots     []token.Pos
+	dotKinds map[token.Pos]reflect.Type // type of the list each "..." stands in
 	dotAssoc map[token.Pos]token.Pos
 
 	patchStart, patchEnd token.Pos
